@@ -2,8 +2,8 @@
 from .lib import *
 
 RULE = ("POST/PUT with Expect: 100-continue (HTTP/1.0 POST and HTTP/1.1, Content-Length or chunked) against server streams whose first "
-        "head is: a bare 100 with reason phrase {Continue, empty, absent, long, obs-text}; another status (200, 403, 417, 500, 301) "
-        "without fields; another status with 1..3 fields -- for EVERY cut position of that head x {look once at the cut then advance, "
+        "head is: a bare 100 with reason phrase {Continue, empty, absent, long, obs-text}; another status (200, 403, 417, 500, 301, "
+        "and the other informational codes 101, 102, 103, 199) without fields; another status with 1..3 fields; two late 100s in a row -- for EVERY cut position of that head x {look once at the cut then advance, "
         "look at every 1-byte arrival up to the cut then advance} x later path (body then final response incl. a late 100, or the "
         "refused response directly). Every flow is driven to Cleanup. non-trivial = Await100 reached and the flow completed; distinct = "
         "distinct op lists")
@@ -18,10 +18,10 @@ def first_heads(rng):
     for reason in [b" Continue", b" ", b"", b" " + b"Go ahead please " * 6, b" caf\xe9"]:
         out.append(("100", b"HTTP/1.1 100" + reason + b"\r\n\r\n", None))
     out.append(("100", b"HTTP/1.0 100 Continue\r\n\r\n", None))
-    for st in [200, 403, 417, 500, 301]:
+    for st in [200, 403, 417, 500, 301, 101, 102, 103, 199]:
         out.append(("bare", b"HTTP/1.1 %d Nope\r\n\r\n" % st, None))
     for st, fields in [(403, [(b"Content-Length", b"0")]), (417, [(b"Connection", b"close"), (b"Content-Length", b"0")]),
-                       (200, [(b"X-A", b"b"), (b"Content-Length", b"0"), (b"X-C", b"d")]), (401, [(b"Content-Length", b"0"), (b"WWW-Authenticate", b"Basic")])]:
+                       (200, [(b"X-A", b"b"), (b"Content-Length", b"0"), (b"X-C", b"d")]), (103, [(b"Link", b"</s.css>; rel=preload")]), (401, [(b"Content-Length", b"0"), (b"WWW-Authenticate", b"Basic")])]:
         head = render_response_head("1.1", st, b"No", fields)
         first_line_end = head.index(b"\r\n") + 2
         first_field_end = head.index(b"\r\n", first_line_end) + 2
@@ -29,12 +29,12 @@ def first_heads(rng):
     return out
 
 
-def build(rng, version, framing, kind, h1, field_end, cut, mode):
+def build(rng, version, framing, kind, h1, field_end, cut, mode, double=False):
     headers = [("expect", "100-continue")]
     if framing == "length":
         headers.append(("content-length", "2"))
     method = "POST" if version == "1.0" else rng.choice(["POST", "PUT"])
-    stream = h1 + (FINAL if kind == "100" else b"")
+    stream = h1 + (h1 if double else b"") + (FINAL if kind == "100" else b"")
     ops = [op_new(method, version, "http", "a.test", "/e", headers), "proceed", "write_head #4096", "proceed", "stream %s" % hx(stream)]
     if mode == "once":
         ops += ["arrive %s" % num(cut), "try100", "q_keep_await"]
@@ -58,7 +58,7 @@ def build(rng, version, framing, kind, h1, field_end, cut, mode):
                 "q_can_proceed", "proceed", "q_must_close", "proceed", "q_must_close"]
     _stats["kinds"][kind] = _stats["kinds"].get(kind, 0) + 1
     _stats["decisions"][str(decided)] = _stats["decisions"].get(str(decided), 0) + 1
-    return {"ops": ops, "meta": {"kind": kind, "h1": h1.hex(), "cut": cut, "mode": mode, "decided": decided, "field_end": field_end,
+    return {"ops": ops, "meta": {"kind": kind, "h1": h1.hex(), "cut": cut, "mode": mode, "decided": decided, "field_end": field_end, "double": double,
                                  "h1_status": int(h1[9:12]), "h1_version": int(h1[7:8])}}
 
 
@@ -75,6 +75,10 @@ def generate(rng, tier, mult):
                         if mode == "every" and cut > 60 and tier == "quick" and cut < len(h1) - 3:
                             continue
                         out.append(build(rng, version, framing, kind, h1, fe, cut, mode))
+                if kind == "100":
+                    # two late interim responses: only the first may be skipped ("exactly once")
+                    for cut in (0, 5, len(h1) - 1):
+                        out.append(build(rng, version, framing, kind, h1, fe, cut, "once", double=True))
     return out
 
 
@@ -157,7 +161,11 @@ def oracle(script, obs):
             return ["after 100-continue and the body, the final response was not returned: %s" % responses[:2]]
     else:
         # gave up: body sent; the stream starts with h1
-        if meta["kind"] == "100":
+        if meta["kind"] == "100" and meta.get("double"):
+            if len(responses) < 2 or responses[0] != (len(h1), None) or responses[1] != (len(h1), 100):
+                return ["two late 100 responses: the first must be skipped and the second surfaced (skipped exactly once): %s" % responses[:2]]
+            return fails
+        elif meta["kind"] == "100":
             if len(responses) < 2 or responses[0] != (len(h1), None) or responses[1] != (len(FINAL), 200):
                 return ["late 100 must be skipped exactly once, then the final response returned: %s" % responses[:2]]
         else:
